@@ -70,7 +70,8 @@ class ViolationFilter:
         line2 = v2.line or 0
 
         # Extract line count from message format: "Duplicate code (N lines, ...)"
-        line_count = self._extract_line_count(v1.message)
+        # (the earlier block's own size decides how far it reaches)
+        line_count = self._extract_line_count(v2.message)
 
         # Blocks overlap if their line ranges intersect
         # Block at line2 covers [line2, line2 + line_count - 1]
